@@ -86,6 +86,15 @@ pub fn bundles() -> Vec<(String, SpendBundle)> {
         v.push(("last-aggsig".into(), SpendBundle::new(vec![spend(1, 1000, list(&[my_amount.clone(), aggsig]))], Signature::default())));
         v.push(("last-message".into(), SpendBundle::new(vec![spend(1, 1000, list(&[my_amount.clone(), send, recv]))], Signature::default())));
         v.push(("last-create-coin".into(), SpendBundle::new(vec![spend(1, 1000, list(&[my_amount, create]))], Signature::default())));
+        // totals above 2^64 (two coins of u64::MAX): conservation is decided on the full sums
+        let max = vec![0u8, 0xff, 0xff, 0xff, 0xff, 0xff, 0xff, 0xff, 0xff];
+        let max_m1 = vec![0u8, 0xff, 0xff, 0xff, 0xff, 0xff, 0xff, 0xff, 0xfe];
+        let out = |ph: u8, amount: &Vec<u8>| cond(&[vec![51], vec![ph; 32], amount.clone()]);
+        let fee = |f: u8| cond(&[vec![52], vec![f]]);
+        v.push(("above-u64-minting".into(), SpendBundle::new(vec![spend(1, u64::MAX, list(&[out(3, &max)])), spend(2, 10, list(&[out(4, &vec![11])]))], Signature::default())));
+        v.push(("above-u64-exact".into(), SpendBundle::new(vec![spend(1, u64::MAX, list(&[out(3, &max), fee(1)])), spend(2, u64::MAX, list(&[out(4, &max_m1)]))], Signature::default())));
+        v.push(("above-u64-fee-covered".into(), SpendBundle::new(vec![spend(1, u64::MAX, list(&[out(3, &max), fee(5)])), spend(2, u64::MAX, list(&[]))], Signature::default())));
+        v.push(("above-u64-fee-short".into(), SpendBundle::new(vec![spend(1, u64::MAX, list(&[out(3, &max), fee(2)])), spend(2, u64::MAX, list(&[out(4, &max_m1)]))], Signature::default())));
     }
     // the spend-count limit of the mempool mode (LIMIT_SPENDS): 6000 spends are admitted, 6001 are not
     for n in [6000usize, 6001] {
@@ -152,7 +161,8 @@ pub fn check_bundle(name: &str, b: &SpendBundle, interned: bool) -> (u64, Vec<(S
     }
     // verdicts the rules prescribe for the mempool path
     for (bn, want) in [("spends-6000", true), ("spends-6001", false), ("amount-0x8000000000000000", true), ("amount-0xffffffffffffffff", true),
-                       ("two-spends", true), ("wrong-my-amount", false), ("forged-second-reveal", false), ("forged-first-reveal", false), ("forged-third-reveal", false), ("minting", false), ("empty", true),
+                       ("two-spends", true), ("wrong-my-amount", false), ("forged-second-reveal", false), ("forged-first-reveal", false), ("forged-third-reveal", false),
+                       ("above-u64-minting", false), ("above-u64-exact", true), ("above-u64-fee-covered", true), ("above-u64-fee-short", false), ("minting", false), ("empty", true),
                        ("last-generic", true), ("last-aggsig", true), ("last-message", true), ("last-create-coin", true)] {
         if name == bn {
             n += 1;
